@@ -40,7 +40,7 @@ chk = Check('C17', 'exploration',
             'full product of the menus: 9 hand-built crystals (fcc, bcc, hcp, B2, zincblende; axis-aligned, re-oriented '
             'and generically rotated cells) x deformation gradients (I +- 0.01 E_ij, rotations 1/5 deg about x,y,z, 6 '
             'combinations, 1 seed slice) x 2 cutoffs (1st / 1st+2nd shell) x variants (4 renumberings x 4 translations; '
-            'quick: identity + one variant per base configuration in round-robin, thorough: all 16); slips: stacking '
+            'quick: identity + one variant per base configuration in round-robin, thorough: all 16); contested: first-shell reference vectors with a cutoff of 2.08 r1 reaching the collinear shell x deformation gradients x theta_max{27,10,50} on the 6 one-environment crystals; slips: stacking '
             'axis x EVERY interior plane between layers x 6 slip vectors (+1 seed slice) x 2 cutoffs x periodic/free '
             'stacking direction x one-sided/split (quick: the last two in a round-robin Latin pattern, thorough: full '
             'product) for all configurations that satisfy the uniqueness guarantee cutoff+|s| < w_min/2-0.25; a case is one '
@@ -833,6 +833,80 @@ def slipstrain(case):
 # --------------------------------------------------------------------------
 # enumeration
 
+# --------------------------------------------------------------------------
+# reference vectors claimed by several neighbours
+
+CONTEST_THETAS = [27, 10, 50]
+
+
+def contested_crystals():
+    return [ci for ci, c in enumerate(CRYSTALS) if c['single_p']]
+
+
+@chk.clause('contested')
+def contested(case):
+    """The reference is the FIRST shell only while the cutoff reaches the shell collinear with it (2 r1: fcc 54, bcc 58
+    neighbours), so every reference vector is claimed by at least two current vectors (at theta_max = 50 by the shells
+    in between as well).  The tools keep, for each reference vector, the claimant whose length is closest to r1 -- the
+    first-shell neighbour -- so G = F^-T exactly and all that follows from it, as for any complete-shell cutoff."""
+    ci = case['crystal']
+    info = crystal(ci, 'ssize', 0)
+    c = info['c']
+    pbc = (True, True, True)
+    D, L = pairs(ci, 'ssize', 0, pbc)
+    fname, F = DEFS[case['F']]
+    theta = CONTEST_THETAS[case['theta']]
+    r1 = L.min()
+    cutoff = 2.08 * r1
+    N = len(info['pos'])
+    V, o = info['vects'], info['origin']
+    sv = np.linalg.svd(F, compute_uv=False)
+    assert shells_ok(L, cutoff, sv.min(), sv.max()), 'cutoff does not select complete shells'
+    Nb = L < cutoff
+    first = L < 1.02 * r1
+    assert np.any(np.abs(L[0][Nb[0]] - 2 * r1) < 1e-9), 'no shell collinear with the first'
+    idx, pos0, o0, t, kind = variant_setup(info, pbc, case['variant'] // 4, case['variant'] % 4)
+    xc = o0 + V.sum(axis=0) / 2
+    cvec = xc - F @ xc
+    A = F - I3
+    u = pos0 @ A.T + cvec
+    V1, o1, pos1 = V @ F.T, F @ o0 + cvec, pos0 + u
+    w = min(info['w'].min(), min_widths(V1).min())
+    assert np.linalg.norm(u, axis=1).max() + MARGIN < w / 2 and cutoff * max(sv.max(), 1) + MARGIN < w / 2
+    atype = info['atype'][idx]
+    s1 = make_system(atype, pos1, V1, o1, pbc)
+    Dv = D[np.ix_(idx, idx)]
+    Nbv = Nb[np.ix_(idx, idx)]
+    firstv = first[np.ix_(idx, idx)]
+    pfirst = [Dv[i][firstv[i]] for i in range(N)]
+    fails = []
+    nl1, ok1 = get_nlist(s1, cutoff, Nbv, 'deformed')
+    R = np.asarray(c['R'], float)
+    G, e, rot, inv, av = oracle_from_F(F)
+    emax = max(np.abs(e).max(), 1e-3)
+    with warnings.catch_warnings():
+        warnings.simplefilter('error')
+        if case['mode'] == 0:
+            st = am.defect.Strain(s1, neighbors=nl1, p_vectors=[np.array(p) for p in pfirst], theta_max=theta)
+            r = am.defect.nye_tensor(s1, np.array(pfirst), theta_max=theta, neighbors=nl1)
+        else:
+            st = am.defect.Strain(s1, neighbors=nl1, p_vectors=[(pfirst[0] @ R).tolist()], axes=R, theta_max=theta)
+            r = am.defect.nye_tensor(s1, pfirst[0] @ R, theta_max=theta, axes=R, neighbors=nl1)
+    strain_outputs(fails, 'strain-', st, N, F)
+    ones = np.ones(N)
+    cmp(fails, 'nye_tensor-strain', r['strain'], np.broadcast_to(e, (N, 3, 3)), TOL)
+    cmp(fails, 'nye_tensor-invariant1', r['strain_invariant_1'], inv[0] * ones, TOL)
+    cmp(fails, 'nye_tensor-invariant2', r['strain_invariant_2'], inv[1] * ones, 2 * TOL * emax)
+    cmp(fails, 'nye_tensor-invariant3', r['strain_invariant_3'], inv[2] * ones, 3 * TOL * emax ** 2)
+    cmp(fails, 'nye_tensor-angularvelocity', r['angular_velocity'], av * ones, TOL)
+    cmp(fails, 'nye_tensor-nye', r['Nye_tensor'], np.zeros((N, 3, 3)), TOL_NYE)
+    chk.note('atoms-checked', N)
+    chk.note('contested-reference-cases', 1)
+    if case['variant'] == 0 and not np.array_equal(F, I3):
+        chk.note('base-configurations-nontrivial', 1)
+    return fails
+
+
 def gen():
     nsize = 2 if THOROUGH else 1
     # ---- homogeneous deformations
@@ -849,6 +923,18 @@ def gen():
                         yield 'deform', dict(base, variant=0, mode=b % 4, theta=(b // 4) % 2)
                         yield 'deform', dict(base, variant=1 + b % 15, mode=(b + 2) % 4, theta=(b // 4 + 1) % 2)
                     b += 1
+    # ---- reference vectors claimed by several neighbours
+    b = 0
+    for ci in contested_crystals():
+        for fi in range(len(DEFS)):
+            for th in range(len(CONTEST_THETAS)):
+                if THOROUGH:
+                    for v in (0, 1 + b % 15):
+                        for mode in (0, 1):
+                            yield 'contested', dict(crystal=ci, F=fi, theta=th, variant=v, mode=mode)
+                else:
+                    yield 'contested', dict(crystal=ci, F=fi, theta=th, variant=0 if b % 2 else 1 + b % 15, mode=b % 2)
+                b += 1
     # ---- rigid slips
     b = 0
     for ci, c in enumerate(CRYSTALS):
